@@ -30,8 +30,11 @@ import (
 	"github.com/streamingfast/substreams/pipeline/exec"
 	"github.com/streamingfast/substreams/reqctx"
 	"github.com/streamingfast/substreams/service"
+	"github.com/streamingfast/substreams/storage/execout"
 	pboutput "github.com/streamingfast/substreams/storage/execout/pb"
+	"github.com/streamingfast/substreams/storage/index"
 	pbindexes "github.com/streamingfast/substreams/storage/index/pb"
+	"github.com/streamingfast/substreams/storage/store"
 	pbstore "github.com/streamingfast/substreams/storage/store/marshaller/pb"
 	"go.uber.org/zap"
 	"google.golang.org/protobuf/proto"
@@ -144,6 +147,67 @@ func jobSvc() *service.Tier2Service {
 	return service.TestNewServiceTier2(false, func(ctx context.Context, h bstream.Handler, start int64, stop uint64, _ string, _ bool, _ bool, _ *zap.Logger, _ ...bsstream.Option) (service.Streamable, error) {
 		return &linearStream{h: h, start: uint64(start), end: stop}, nil
 	})
+}
+
+// realPlan: what the REAL service.GetExecutionPlan decides for (stage k, segment 1) on the current directory
+func realPlan(env *sysEnv, g *exec.Graph, k int, seg uint64) map[string]any {
+	out := map[string]any{"err": "", "skip": false, "required": []string{}, "toWrite": []string{}, "writers": []string{}}
+	base, err := dstore.NewStore(env.dir, "zst", "zstd", true)
+	if err != nil {
+		out["err"] = err.Error()
+		return out
+	}
+	if base, err = base.SubStore("tag"); err != nil { // the cache tag of the request (StateStoreDefaultTag)
+		out["err"] = err.Error()
+		return out
+	}
+	lg := zap.NewNop()
+	ec, err1 := execout.NewConfigs(base, g.UsedModulesUpToStage(k), g.ModuleHashes(), seg, 0, lg)
+	sc, err2 := store.NewConfigMap(base, g.Stores(), g.ModuleHashes(), 0)
+	ic, err3 := index.NewConfigs(base, g.UsedIndexesModulesUpToStage(k), g.ModuleHashes(), 0, lg)
+	if err1 != nil || err2 != nil || err3 != nil {
+		out["err"] = fmt.Sprint(err1, err2, err3)
+		return out
+	}
+	var p *service.ExecutionPlan
+	pan := guard(func() {
+		p, err = service.GetExecutionPlan(context.Background(), lg, g, uint32(k), seg, 2*seg, "out", ec, ic, sc)
+	})
+	if pan != "" || err != nil {
+		out["err"] = fmt.Sprint(pan, err)
+		return out
+	}
+	if p == nil || len(p.RequiredModules) == 0 {
+		out["skip"] = true
+		return out
+	}
+	keys := func(n int, each func(func(string))) []string {
+		r := make([]string, 0, n)
+		each(func(s string) { r = append(r, s) })
+		sort.Strings(r)
+		return r
+	}
+	out["required"] = keys(len(p.RequiredModules), func(f func(string)) {
+		for n := range p.RequiredModules {
+			f(n)
+		}
+	})
+	out["toWrite"] = keys(len(p.StoresToWrite), func(f func(string)) {
+		for n := range p.StoresToWrite {
+			f(n)
+		}
+	})
+	out["writers"] = keys(len(p.ExecoutWriters)+len(p.IndexWriters), func(f func(string)) {
+		for n := range p.ExecoutWriters {
+			f(n)
+		}
+		for n := range p.IndexWriters {
+			if _, dup := p.ExecoutWriters[n]; !dup {
+				f(n)
+			}
+		}
+	})
+	return out
 }
 
 func runJobs(a *args) error {
@@ -284,6 +348,7 @@ func runJobs(a *args) error {
 						os.WriteFile(filepath.Join(env.dir, f), b, 0644)
 					}
 				}
+				planRec := realPlan(env, g, k, seg)
 				req := jobReq(env, seg, k, 1)
 				svc := jobSvc()
 				var jerr error
@@ -313,7 +378,7 @@ func runJobs(a *args) error {
 					}
 					after = append(after, jf)
 				}
-				a.emitNT(map[string]any{"k": "job", "variant": variant, "stage": k, "mask": mask, "before": projectFiles(env, before), "err": es, "panic": pan, "after": after}, mask != 0)
+				a.emitNT(map[string]any{"k": "job", "variant": variant, "stage": k, "mask": mask, "before": projectFiles(env, before), "plan": planRec, "err": es, "panic": pan, "after": after}, mask != 0)
 			}
 		}
 		os.RemoveAll(env.dir)
